@@ -203,7 +203,7 @@ def _anchors(kind):
             f" assert(relative_domain@ =~= Seq::<Label>::empty()); lemma_store_leaf(*old(self), *self, {w}, d0, ttl); }}")
     # the lemmas are called where the branches end, so that whatever a branch does is measured against the contract
     A = [{"after": "labels.insert(0, label.clone());", "proof": "assert(labels@ =~= seq![label] + self.nsdname.labels@);"},
-         {"after": "return;", "at": "before", "proof": leaf},
+         {"after": "return;", "at": "before", "optional": True, "proof": leaf},
          {"after_re": r"\}\s*else\s*\{\s*let label = ", "at": "before", "proof": leaf},
          {"after_re": r"\}\s*else\s*\{\s*let mut labels = ", "at": "before", "proof": f"proof {{ lemma_store_child(*old(self), *self, old(self).children@[label], {w}, label, remainder@, relative_domain@, d0, ttl); }}"},
          {"after": call, "nth": 1, "at": "before", "proof": "let ghost c0 = child; proof { lemma_new_stores_nothing(c0); }"},
